@@ -3,12 +3,16 @@
 Part (a), launcher.  2-3 tasks run the REAL ``vgi_rpc.launcher.launch()`` (and through it the real ``_probe``,
 ``_require_socket_or_absent``, ``_unlink_stale_socket``, ``_write_meta``, ``_spawn_worker``, ``gc_state_dir``,
 ``compute_hash``) against a private state directory with REAL ``AF_UNIX`` socket inodes.  Replaced: ``FileLock``
-(a cooperative per-path lock; non-blocking when ``timeout=0.0``), ``subprocess.Popen`` (a simulated worker that
-runs the real ``_check_no_existing_listener`` / ``_unlink_stale_unix_socket``, then binds + listens on a real
-socket and prints ``UNIX:<path>``; each of these is a scheduling point) and ``threading`` (shim).  Environment
-events: the worker exits cleanly (socket closed, path unlinked through the real ``_unlink_bound_unix_socket``) or
-crashes (stale socket file stays).  Scheduling points: lock acquire/release, probe, unlink, Popen, the worker's
-startup steps, readline (thorough tier: every source line of ``launch``/``gc_state_dir``).
+(a cooperative per-path lock; non-blocking when ``timeout=0.0``), ``subprocess.Popen`` (the spawned worker is a new
+scheduler task that runs the REAL ``serve_unix`` — ``_check_no_existing_listener``, ``_unlink_stale_unix_socket``, bind,
+``on_bound`` printing ``UNIX:<path>``, and its ``finally`` clause — around a stub accept loop; ``bind`` / ``connect`` /
+``unlink`` / ``close`` and the exit-time ``lstat`` of ``vgi_rpc.rpc._transport`` are scheduling points) and ``threading``
+(shim; the stdout drain thread runs inline).  Inode numbers seen by ``_transport`` are model-owned (lowest free number,
+free once the socket is closed and no dirent names it: the adversarial legal kernel policy, real on ext4).  Environment
+events: the worker's idle timer fires (the stub accept loop returns and the real ``finally`` runs, step by step) or
+the worker is killed (stale socket file stays; nothing further executes).  Scheduling points: lock acquire/release,
+probe, unlink, Popen, the worker's file-system steps, readline (traced configurations: every source line of
+``launch``/``gc_state_dir`` with the worker's steps glued).
 
   (once)  no worker is spawned for a command hash while a worker of that hash is alive and listening, at no step do
           two live workers exist for one hash, and nobody unlinks the socket path of a live worker (which would
@@ -49,6 +53,7 @@ import logging
 import os
 import shutil
 import socket
+import sys
 import tempfile
 import types
 from typing import Any
@@ -542,6 +547,8 @@ class AWorld:
         self.deaths: list[int] = []  # step numbers of worker deaths
         self.spawns = 0
         self.probes = 0
+        self.ino = InoModel(self)
+        self.init_ready = True
 
     def violate(self, key: str, msg: str) -> None:
         if not any(k == key for k, _ in self.viol):
@@ -551,12 +558,12 @@ class AWorld:
         return [x for x in self.workers if x.alive and x.path == path]
 
     def listening(self, path: str) -> bool:
-        """Sim truth: a live worker's socket inode is what *path* names now."""
+        """Sim truth (kernel level): *path* names the dirent of a worker whose listening socket is still open."""
         try:
             st = os.lstat(path)
         except OSError:
             return False
-        return any(x.alive and x.ident == (st.st_dev, st.st_ino) for x in self.workers)
+        return any(x.accepting() and x.ident == (st.st_dev, st.st_ino) for x in self.workers)
 
     def cur(self) -> dict[str, Any] | None:
         t = self.s.current()
@@ -590,7 +597,7 @@ class AWorld:
         except OSError:
             files = ()
         return (
-            tuple((x.alive, os.path.basename(x.path)) for x in self.workers),
+            tuple((x.alive, x.exited, x.stop, os.path.basename(x.path)) for x in self.workers),
             tuple(sorted((os.path.basename(k), v.owner is not None) for k, v in self.locks.items())),
             tuple(f[-5:] for f in files),
             tuple((c["task"], c["ret"] is not None) for c in self.calls),
@@ -598,36 +605,206 @@ class AWorld:
 
     def cleanup(self) -> None:
         for x in self.workers:
-            with contextlib.suppress(Exception):
-                x.sock.close()
+            if x.sock is not None:
+                with contextlib.suppress(Exception):
+                    socket.socket.close(x.sock)
         shutil.rmtree(self.dir, ignore_errors=True)
 
 
+class WorkerKilled(BaseException):
+    """kill -9 of the simulated worker process: every further instrumented operation of that task raises it."""
+
+
 class SimWorker:
-    def __init__(self, w: AWorld, path: str) -> None:
+    """One worker process: a scheduler task running the REAL ``serve_unix`` around a stub accept loop."""
+
+    def __init__(self, w: AWorld, path: str, auto: str | None = None) -> None:
         self.w = w
         self.path = path
-        self.sock = socket.socket(socket.AF_UNIX, socket.SOCK_STREAM)
-        self.sock.bind(path)
-        st = os.lstat(path)
-        self.ident = (st.st_dev, st.st_ino)
-        self.alive = False
+        self.sock: Any = None  # the TrackedSocket serve_unix bound
+        self.ident: tuple[int, int] | None = None  # real (st_dev, st_ino) of the bound dirent
+        self.alive = False  # accept loop running
+        self.born: int | None = None
+        self.stop: str | None = None  # None | "exit" | "crash"
+        self.killed = False
+        self.exited = False
+        self.rc: int | None = None
+        self.lines: list[bytes] = []
+        self.auto = auto  # initial-world worker: "live" | "crashed"
+        self.task: Any = None
 
-    def listen(self) -> None:
-        self.sock.listen(128)
-        self.alive = True
-        self.born = self.w.s.nsteps
+    def accepting(self) -> bool:
+        """Kernel truth: the listening socket is still open (a connect to its dirent succeeds)."""
+        return self.sock is not None and self.born is not None and self.sock.fileno() != -1
 
-    def die(self, clean: bool) -> None:
+    def request(self, how: str) -> None:
+        if self.stop is None:
+            self.stop = how
+
+    # ---- the process body (runs in its own scheduler task)
+    def main(self) -> None:
         import vgi_rpc.rpc._transport as T
 
-        if not self.alive:
-            return
+        w = self.w
+        try:
+            T.serve_unix(
+                types.SimpleNamespace(server_id="sim", protocol_name="Sim"), self.path, threaded=True, idle_timeout=300.0,
+                on_bound=lambda p: self.lines.extend([b"some import noise\n", f"UNIX:{p}\n".encode()]),
+            )
+            self.rc = 0
+        except WorkerKilled:
+            self.rc = -9
+        except (RuntimeError, OSError):
+            self.rc = 1
+        finally:
+            if self.alive:
+                self.alive = False
+                w.deaths.append(w.s.nsteps)
+            self.exited = True
+            if self.auto is not None:
+                w.init_ready = True
+            w.deaths.append(w.s.nsteps)
+
+    def accept_loop(self, sock: Any) -> None:
+        """Stand-in for ``_serve_socket_threaded``: accepts nothing, returns when the idle timer (env event) fires."""
+        w = self.w
+        self.sock = sock
+        self.ident = sock._key
+        self.alive = True
+        self.born = w.s.nsteps
+        if self.auto == "crashed":
+            self.stop = "crash"
+        elif self.auto == "live":
+            w.init_ready = True
+        S.block(lambda: self.stop is not None, "worker:serving")
         self.alive = False
-        self.sock.close()
-        if clean:
-            T._unlink_bound_unix_socket(self.path, self.ident)
-        self.w.deaths.append(self.w.s.nsteps)
+        w.deaths.append(w.s.nsteps)
+        if self.stop == "crash":
+            self.killed = True
+            socket.socket.close(sock)
+            raise WorkerKilled
+
+
+def _cur_worker() -> "SimWorker | None":
+    w = _W
+    t = w.s.current() if w is not None else None
+    if t is None:
+        return None
+    for x in w.workers:
+        if x.task is t:
+            return x
+    return None
+
+
+def _wpoint(label: str) -> None:
+    """Scheduling point of a worker-side filesystem / socket operation; a killed worker executes nothing further."""
+    x = _cur_worker()
+    if x is not None and x.killed:
+        raise WorkerKilled
+    if x is not None and (x.path != _W.expect[ARGV_1] or _W.cfg.get("trace")):
+        # (line-traced configurations explore the launcher's own lines; there the worker's steps stay glued as well)
+        return  # the second hash's worker only matters through its launcher's gc pass: its own steps stay glued
+    S.point(label)
+    if x is not None and x.killed:
+        raise WorkerKilled
+
+
+class _St:
+    """``os.stat_result`` with a model-owned inode number."""
+
+    __slots__ = ("_st", "st_ino")
+
+    def __init__(self, st: Any, ino: int) -> None:
+        self._st = st
+        self.st_ino = ino
+
+    def __getattr__(self, n: str) -> Any:
+        return getattr(self._st, n)
+
+
+class InoModel:
+    """Inode numbers of bound sockets as the real code sees them, owned by the model.
+
+    The kernel may hand a freed inode number to the next file created (ext4 does so immediately; observed 20/20 on this
+    machine, never on tmpfs), and whether it does is outside the scheduler's control.  The model fixes the adversarial
+    legal policy: a new socket dirent gets the LOWEST number that is free, where a number is free once its socket is
+    closed and no dirent of the state directory names it any more.
+    """
+
+    def __init__(self, w: AWorld) -> None:
+        self.w = w
+        self.table: dict[tuple[int, int], tuple[int, Any]] = {}
+
+    def register(self, key: tuple[int, int], sock: Any) -> None:
+        present: set[tuple[int, int]] = set()
+        with contextlib.suppress(OSError):
+            for e in os.scandir(self.w.dir):
+                with contextlib.suppress(OSError):
+                    st = os.lstat(e.path)
+                    present.add((st.st_dev, st.st_ino))
+        for k, (_v, sk) in list(self.table.items()):
+            if k == key or (sk.fileno() == -1 and k not in present):
+                del self.table[k]
+        used = {v for v, _ in self.table.values()}
+        v = 1
+        while v in used:
+            v += 1
+        self.table[key] = (v, sock)
+
+    def virtual(self, st: Any) -> int:
+        e = self.table.get((st.st_dev, st.st_ino))
+        return e[0] if e is not None else st.st_ino
+
+
+class TrackedSocket(socket.socket):
+    """``socket.socket`` of the worker side: bind / connect / close of a bound listener are scheduling points."""
+
+    _key: tuple[int, int] | None = None
+
+    def bind(self, addr: Any) -> None:
+        _wpoint("worker:bind")
+        super().bind(addr)
+        st = os.lstat(addr)
+        self._key = (st.st_dev, st.st_ino)
+        _W.ino.register(self._key, self)
+
+    def connect(self, addr: Any) -> None:
+        _wpoint("worker:connect")
+        super().connect(addr)
+
+    def close(self) -> None:
+        if self._key is not None and self.fileno() != -1:
+            _wpoint("worker:close")
+        super().close()
+
+
+class _OsProxy:
+    """``os`` as seen by ``vgi_rpc.rpc._transport``: lstat / unlink are scheduling points, inodes are the model's."""
+
+    def __getattr__(self, n: str) -> Any:
+        return getattr(os, n)
+
+    def lstat(self, path: Any, **kw: Any) -> Any:
+        # a point only in the exit clean-up (identity check, then unlink); elsewhere the lstat is glued to the operation
+        # before it (coarser atomicity: fewer behaviours, never a spurious one) - the unlink / connect / bind that
+        # follows has its own point
+        if sys._getframe(1).f_code.co_name == "_unlink_bound_unix_socket":
+            _wpoint("worker:exit-lstat")
+        st = os.lstat(path, **kw)
+        return _St(st, _W.ino.virtual(st)) if _W is not None else st
+
+    def unlink(self, path: Any, **kw: Any) -> None:
+        _wpoint("worker:unlink")
+        w = _W
+        try:
+            st = os.lstat(path)
+            victim = [x for x in w.workers if x.alive and x.ident == (st.st_dev, st.st_ino)]
+        except OSError:
+            victim = []
+        me = _cur_worker()
+        if victim and victim[0] is not me:
+            w.violate("a:worker-unlinked-live-socket", f"an exiting / starting worker unlinked {os.path.basename(str(path))} while another live worker listens on it")
+        os.unlink(path, **kw)
 
 
 class CoopFileLock:
@@ -666,13 +843,11 @@ class CoopFileLock:
 class _FakeStdout:
     def __init__(self, proc: "FakePopen") -> None:
         self.proc = proc
-        self.lines: list[bytes] | None = None
 
     def readline(self) -> bytes:
-        S.point("readline")
-        if self.lines is None:
-            self.lines = self.proc._startup()
-        return self.lines.pop(0) if self.lines else b""
+        x = self.proc.worker
+        S.block(lambda: bool(x.lines) or x.exited, "readline")
+        return x.lines.pop(0) if x.lines else b""
 
     def __iter__(self) -> Any:
         return iter(())
@@ -682,7 +857,7 @@ class _FakeStdout:
 
 
 class FakePopen:
-    """The spawned worker process: start-up of ``serve_unix`` from the real helper functions."""
+    """The spawned worker process: a new scheduler task running the real ``serve_unix`` (see SimWorker)."""
 
     def __init__(self, argv: list[str], **kw: Any) -> None:
         w = _W
@@ -693,42 +868,29 @@ class FakePopen:
         self.returncode: int | None = None
         self.path = argv[argv.index("--unix") + 1]
         self.stdout = _FakeStdout(self)
-        self.worker: SimWorker | None = None
         S.point("popen")
         if w.listening(self.path) or w.live(self.path):
             w.violate(
                 "a:spawn-while-worker-alive",
                 f"a worker for {os.path.basename(self.path)} was spawned while a live worker of that hash exists",
             )
-
-    def _startup(self) -> list[bytes]:
-        import vgi_rpc.rpc._transport as T
-
-        try:
-            T._check_no_existing_listener(self.path)
-            S.point("worker:unlink")
-            T._unlink_stale_unix_socket(self.path)
-            S.point("worker:bind")
-            self.worker = SimWorker(self.w, self.path)
-            self.w.workers.append(self.worker)
-            self.worker.listen()
-            S.point("worker:ready")
-        except (RuntimeError, OSError):
-            self.returncode = 1
-            return []
-        return [b"some import noise\n", f"UNIX:{self.path}\n".encode()]
+        self.worker = SimWorker(w, self.path)
+        w.workers.append(self.worker)
+        self.worker.task = w.s.spawn(self.worker.main, f"worker{self.pid}", daemon=True)
 
     def wait(self, timeout: float | None = None) -> int:
+        x = self.worker
+        if not x.exited and x.stop is not None:
+            S.block(lambda: x.exited, "proc.wait")
         if self.returncode is None:
-            self.returncode = 0
+            self.returncode = x.rc if x.rc is not None else 0
         return self.returncode
 
     def poll(self) -> int | None:
-        return self.returncode
+        return self.worker.rc if self.worker.exited else None
 
     def terminate(self) -> None:
-        if self.worker is not None:
-            self.worker.die(True)
+        self.worker.request("crash")
         self.returncode = -15
 
     kill = terminate
@@ -742,8 +904,21 @@ def bound_launcher():
     import subprocess as real_subprocess
 
     import vgi_rpc.launcher as L
+    import vgi_rpc.rpc._transport as T
 
     saved = {k: getattr(L, k) for k in ("FileLock", "subprocess", "threading", "_probe", "_unlink_stale_socket")}
+    saved_t = {k: getattr(T, k) for k in ("os", "socket", "_serve_socket_threaded")}
+
+    def accept_loop(server: Any, sock: Any, *a: Any, **kw: Any) -> None:
+        x = _cur_worker()
+        assert x is not None
+        x.accept_loop(sock)
+
+    sockmod = types.SimpleNamespace(**{k: getattr(socket, k) for k in dir(socket) if not k.startswith("__")})
+    sockmod.socket = TrackedSocket
+    T.os = _OsProxy()  # type: ignore[assignment]
+    T.socket = sockmod  # type: ignore[assignment]
+    T._serve_socket_threaded = accept_loop  # type: ignore[assignment]
     real_probe = L._probe
     real_unlink = L._unlink_stale_socket
 
@@ -773,7 +948,20 @@ def bound_launcher():
     )
     L.FileLock = CoopFileLock  # type: ignore[misc]
     L.subprocess = sub  # type: ignore[attr-defined]
-    L.threading = S.threading_shim()  # type: ignore[attr-defined]
+
+    class InlineThread(S.CoopThread):
+        """The stdout drain thread reads the (empty) fake pipe and touches nothing shared: run it at start()."""
+
+        def start(self) -> None:
+            self.run()
+
+        def join(self, timeout: float | None = None) -> None:
+            return None
+
+        def is_alive(self) -> bool:
+            return False
+
+    L.threading = S.threading_shim(Thread=InlineThread)  # type: ignore[attr-defined]
     L._probe = probe  # type: ignore[assignment]
     L._unlink_stale_socket = unlink_stale  # type: ignore[assignment]
     _BASE["dir"] = tempfile.mkdtemp(prefix="vfc33-")
@@ -782,6 +970,8 @@ def bound_launcher():
     finally:
         for k, v in saved.items():
             setattr(L, k, v)
+        for k, v in saved_t.items():
+            setattr(T, k, v)
         shutil.rmtree(_BASE["dir"], ignore_errors=True)
 
 
@@ -804,16 +994,15 @@ def make_setup_a(cfg: dict[str, Any]):
         w.expect = {ARGV_1: p1, ARGV_2: os.path.join(d, f"{L.compute_hash(ARGV_2)}.sock")}
         init = cfg.get("init", "none")
         if init in ("live", "crashed"):
-            x = SimWorker(w, p1)
+            # the initial worker runs the real serve_unix start-up too; launchers wait until it serves (or has crashed)
+            w.init_ready = False
+            x = SimWorker(w, p1, auto=init)
             w.workers.append(x)
-            x.listen()
+            x.task = s.spawn(x.main, "worker-init", daemon=True)
             L._write_meta(L.Path(os.path.join(d, f"{h1}.meta")), ARGV_1, os.getcwd(), p1)
-            if init == "crashed":
-                x.die(False)
-                w.deaths.clear()
 
         def launcher(i: int, argv: tuple[str, ...]) -> None:
-            S.point(f"l{i}:begin")
+            S.block(lambda: w.init_ready, f"l{i}:begin")
             rec: dict[str, Any] = {"task": s.current().id, "i": i, "argv": argv, "begin": s.nsteps, "ret": None, "exc": None, "obs": [], "end": None}
             w.calls.append(rec)
             try:
@@ -832,9 +1021,11 @@ def make_setup_a(cfg: dict[str, Any]):
             s.spawn(lambda i=i, a=a: launcher(i, ARGV_1 if a == 1 else ARGV_2), f"launch{i}")
         for j, ev in enumerate(cfg.get("env", [])):
             def die(ev: str = ev) -> None:
+                # the idle timer fires (clean exit through serve_unix's finally) / the process is killed
+                S.block(lambda: w.init_ready, "env:wait-init")
                 for x in w.workers:
-                    if x.alive and x.path == p1:
-                        x.die(ev == "exit")
+                    if x.alive and x.path == p1 and x.stop is None:
+                        x.request(ev)
                         return
 
             s.spawn(die, f"{ev}{j}", env=True)
@@ -897,15 +1088,14 @@ def configs_a(ctx: Ctx) -> list[dict[str, Any]]:
         add([1, 1])
         add([1, 1], init="live")
         add([1, 1], init="crashed")
-        add([1, 1], init="live", env=["exit"])
-        add([1, 1], init="live", env=["crash"])
+        add([1, 1], init="live", env=["exit"], bound=1)
+        add([1, 1], init="live", env=["crash"], bound=1)
         add([1, 1], env=["crash"], bound=1)
-        add([1, 2], init="crashed")
+        add([1, 2], init="crashed", bound=1)
         add([1, 1, 1], bound=1)
-        add([1, 1, 2], init="crashed", bound=1)
+        add([2, 1], init="crashed", bound=1)
         add([1, 1], bound=1, trace=True)
-        add([1, 2], init="crashed", bound=1, trace=True)
-        add([2, 1], init="crashed", bound=1, trace=True)
+        add([1, 1], init="crashed", bound=1, trace=True)
         return out
     for init in ("none", "live", "crashed"):
         add([1, 1], init=init, bound=3)
